@@ -375,6 +375,10 @@ static PDU* reparse_live(const Class& c, const ClsLay& cl, PDU& o, vh::Rng& r) {
         // one that selects another header format - then this is not a state of the class under test)
         for (size_t i = 0; i < c.fields.size(); ++i) if (get_value(c.fields[i], *q) != get_value(c.fields[i], o)) return 0;
         if (q->header_size() != o.header_size()) return 0;
+        // ... and the same (opaque) payload below it: a next-protocol value that names a class libtins knows makes the parser build
+        // that class from the payload octets, and then the tag belongs to serialisation, not to the setter
+        for (const PDU* a = q->inner_pdu(), *b = o.inner_pdu(); a || b; a = a->inner_pdu(), b = b->inner_pdu())
+            if (!a || !b || a->pdu_type() != b->pdu_type()) return 0;
         return q.release();
     } catch (std::exception&) { return 0; }
 }
